@@ -108,6 +108,12 @@ def expectedMagOps (t : MagTruthQ) : Option (List MOpQ) :=
       else none
     some (cosets.flatMap fun c => base.map fun o => ⟨o.rot, o.trans.add c, o.tr⟩)
 
+/-- The first failure message among `f 0, …, f (n-1)` (at most one; stops at the first). -/
+def firstFail (n : Nat) (f : Nat → Option String) : List String :=
+  match (List.range n).findSome? f with
+  | some s => [s]
+  | none => []
+
 /-! ### C11 -/
 
 /-- Two-stage exact site search: a site accepted by `sel` within `r2` of `y` that also passes
@@ -123,19 +129,17 @@ def findSel2 (ix : SiteIndex) (y : Q3) (sel extra : Nat → Bool) (r2 : Rat) : O
 def findMagSite (ix : SiteIndex) (mom : Array Q3) (y : Q3) (sp : Int) (m' : Q3) (r2 mr2 : Rat) : Option Nat :=
   findSel2 ix y (fun j => ix.cell.num[j]! == sp) (fun j => momClose mom[j]! m' mr2) r2
 
-def checkC11 (cs : MagCaseQ) (d : MagDatasetQ) : List String :=
+/-- C11, clause (a): every reported operation is a symmetry of the magnetic structure. -/
+def checkC11sym (cs : MagCaseQ) (d : MagDatasetQ) : List String :=
   let c := cs.mc.cell
   let A := c.lat
   let ix := SiteIndex.build c
-  let gi := ix.gi
   let r := 4 * d.symprec
   let r2 := r * r
   let mr := 4 * d.magSymprec
   let mr2 := mr * mr
   let ops := d.ops
-  let k := ops.size
-  -- (a) every operation is a symmetry of the magnetic structure
-  let fa := (List.range k).filterMap fun n =>
+  firstFail ops.size fun n =>
     let o := ops[n]!
     let dt := o.rot.det
     if !(dt == 1 || dt == -1) then some s!"C11[det]: operation {n} has determinant {dt}" else
@@ -149,24 +153,33 @@ def checkC11 (cs : MagCaseQ) (d : MagDatasetQ) : List String :=
       else
         some s!"C11[mom]: operation {n} (time reversal {o.tr}) carries atom {i} onto an atom whose moment differs from the transformed moment by more than 4*mag_symprec"
     | none => none
-  -- (b) group axioms modulo lattice translations, time reversal composing by xor
+
+/-- C11, clauses (b)-(d): group axioms modulo lattice translations (time reversal composing by xor),
+index of the time-reversal-free elements, equality with the generating group.  Float-free. -/
+def checkC11alg (cs : MagCaseQ) (d : MagDatasetQ) : List String :=
+  let A := cs.mc.cell.lat
+  let gi := ginvDiag A
+  let r := 4 * d.symprec
+  let r2 := r * r
+  let ops := d.ops
+  let k := ops.size
   let g := MGroups.build ops
   let idOp : MOpQ := ⟨M3.one, Q3.zero, false⟩
   let tiny : Rat := 1 / 1000000
   let f0 := if hasMOp A gi g idOp r2 then [] else ["C11[identity]: the identity without time reversal is missing"]
-  let f1 := (List.range k).filterMap fun i =>
+  let f1 := firstFail k fun i =>
     let o := ops[i]!
     if (List.range i).any fun j =>
         let p := ops[j]!
         p.tr == o.tr && p.rot == o.rot &&
           (let w := (p.trans.sub o.trans).wrap; rabs w.x < tiny && rabs w.y < tiny && rabs w.z < tiny)
     then some s!"C11[dup]: operation {i} duplicates an earlier one modulo lattice translations" else none
-  let f2 := (List.range k).filterMap fun i =>
+  let f2 := firstFail k fun i =>
     let a := ops[i]!
     match (List.range k).find? (fun j => !(hasMOp A gi g (mopMul a ops[j]!) r2)) with
     | some j => some s!"C11[closure]: the product of operations {i} and {j} is not reported"
     | none => none
-  let f3 := (List.range k).filterMap fun i =>
+  let f3 := firstFail k fun i =>
     let a := ops[i]!
     if (g.side a.tr).any fun e => a.rot.mul e.1 == M3.one && e.2.any fun t =>
         transClose A gi ((a.rot.applyQ t).add a.trans) Q3.zero r2
@@ -185,12 +198,15 @@ def checkC11 (cs : MagCaseQ) (d : MagDatasetQ) : List String :=
       (if missed.isEmpty then [] else [s!"C11[missed]: {missed.length} of {exp.length} operations of the generating group are missed"]) ++
       (if invented.isEmpty then [] else [s!"C11[invented]: {invented.length} of {k} reported operations are not elements of the generating group"]) ++
       (if exp.length == k then [] else [s!"C11[count]: {k} operations reported, {exp.length} expected"])
-  cap (fa.take 2 ++ f0 ++ f1.take 1 ++ f2.take 1 ++ f3.take 1 ++ f4 ++ f5) 8
+  f0 ++ f1 ++ f2 ++ f3 ++ f4 ++ f5
+
+def checkC11 (cs : MagCaseQ) (d : MagDatasetQ) : List String := checkC11sym cs d ++ checkC11alg cs d
 
 /-! ### C12 -/
 
 /-- First component of an OG number `"5.5.23"`: the ITA number of the family space group. -/
-def ogFamily (s : String) : Option Nat := ((s.splitOn ".").head?).bind String.toNat?
+def ogFamily (s : String) : Option Nat :=
+  Hall.parseNat? (s.toList.takeWhile fun c => (Hall.digitVal? c).isSome)
 
 /-- UNI numbers of the construct-type-2 (grey) entries whose BNS reference space group is ITA number `n`. -/
 def greyEntries (n : Nat) : List Nat :=
@@ -211,7 +227,7 @@ def checkC12 (cs : MagCaseQ) (d : MagDatasetQ) : List String :=
   match expectedUni cs.truth with
   | none => ["C12[truth]: oracle could not determine the expected UNI number"]
   | some u =>
-    if d.uni == (u : Int) then [] else
+    if d.uni = (u : Int) then [] else
       [s!"C12[uni]: UNI number {d.uni} returned, {u} expected (generated from UNI {cs.truth.uni}, variant {cs.truth.variant})"]
 
 /-! ### C13 -/
@@ -227,23 +243,39 @@ def refConvOps (number : Nat) : Option (List HOp) :=
 def carryOp (L Li : QM3) (s : Q3) (R : M3) (t : Q3) : QM3 × Q3 :=
   ((Li.mul (QM3.ofM3 R)).mul L, Li.apply (((R.applyQ s).add t).sub s))
 
-/-- exact-symmetry test of one operation `(W, w, θ)` (rational linear part) on a magnetic cell:
-first site that is not carried onto a site of its species within `e2` (`.inl`), or onto a site whose
-moment differs by more than `me2` (`.inr`) -/
-def symFail (mc : MagCellQ) (ix : SiteIndex) (collinear axial : Bool) (W : QM3) (w : Q3) (det : Int) (tr : Bool)
-    (e2 me2 : Rat) (moments : Bool) : Option (Nat × Bool) :=
-  let S := mc.cell.lat
-  let cart := (S.mul W).mul S.inv
-  (List.range mc.cell.n).findSome? fun i =>
-    let y := (W.apply mc.cell.pos[i]!).add w
-    if moments then
-      let m' := momentAct collinear axial cart det tr mc.mom[i]!
-      if (findMagSite ix mc.mom y mc.cell.num[i]! m' e2 me2).isSome then none
-      else some (i, (ix.find y mc.cell.num[i]! e2).isSome)
-    else
-      if (ix.find y mc.cell.num[i]! e2).isSome then none else some (i, false)
+/-- Is site `i` of the magnetic cell carried by `(W, w, θ)` onto a site of its species within `e2`
+(and, when `moments`, carrying the transformed moment within `me2`)?  `cart` is the Cartesian form of
+`W` in the cell's own frame, `det` its determinant. -/
+def siteCarried (mc : MagCellQ) (ix : SiteIndex) (collinear axial : Bool) (W : QM3) (w : Q3) (cart : QM3)
+    (det : Int) (tr : Bool) (e2 me2 : Rat) (moments : Bool) (i : Nat) : Bool :=
+  let y := (W.apply mc.cell.pos[i]!).add w
+  if moments then
+    (findMagSite ix mc.mom y mc.cell.num[i]! (momentAct collinear axial cart det tr mc.mom[i]!) e2 me2).isSome
+  else (ix.find y mc.cell.num[i]! e2).isSome
 
-def checkC13 (cs : MagCaseQ) (d : MagDatasetQ) : List String :=
+/-- Cartesian form of the (rational) linear part `W` acting in a cell with basis `S`. -/
+def cartOf (S W : QM3) : QM3 := (S.mul W).mul S.inv
+
+/-- Exact-symmetry test of one operation `(W, w, θ)` on a magnetic cell: the first site that is not
+carried onto a site. -/
+def symFail (mc : MagCellQ) (ix : SiteIndex) (collinear axial : Bool) (W : QM3) (w : Q3) (det : Int) (tr : Bool)
+    (e2 me2 : Rat) (moments : Bool) : Option Nat :=
+  (List.range mc.cell.n).find? fun i =>
+    !(siteCarried mc ix collinear axial W w (cartOf mc.cell.lat W) det tr e2 me2 moments i)
+
+/-- For the failure message: does the image of site `i` at least land on a site of its species? -/
+def posLands (mc : MagCellQ) (ix : SiteIndex) (W : QM3) (w : Q3) (e2 : Rat) (i : Nat) : Bool :=
+  (ix.find ((W.apply mc.cell.pos[i]!).add w) mc.cell.num[i]! e2).isSome
+
+/-- The documented exception: type-IV groups of the triclinic and monoclinic systems. -/
+def exceptedEntry (e : MagTypeEntry) : Bool := e.constructType == 4 && decide (e.number ≤ 15)
+
+/-- The input moment in the standardized frame: rotated by `Q = std_rotation_matrix` (a proper rotation,
+so polar and axial moments rotate alike); collinear moments are frame independent. -/
+def rotMoment (collinear : Bool) (Q : QM3) (m : Q3) : Q3 := if collinear then m else Q.apply m
+
+/-- The clauses of C13 on the values as reported. -/
+def checkC13core (cs : MagCaseQ) (d : MagDatasetQ) : List String :=
   let c := cs.mc.cell
   let A := c.lat
   let n := c.n
@@ -255,7 +287,7 @@ def checkC13 (cs : MagCaseQ) (d : MagDatasetQ) : List String :=
   let tol : Rat := 1 / 1000000000
   let eps : Rat := 1 / 100000000
   let e2 := eps * eps
-  let rotMom (m : Q3) : Q3 := if cs.collinear then m else Q.apply m
+  let rotMom (m : Q3) : Q3 := rotMoment cs.collinear Q m
   let S := d.std
   let P := d.prim
   -- lattice relations (as C05)
@@ -270,14 +302,14 @@ def checkC13 (cs : MagCaseQ) (d : MagDatasetQ) : List String :=
   let Li := d.stdLinear.inv
   let Pi := d.primLinear.inv
   -- every input atom lands on a std_mag_cell site of its species carrying the rotated moment
-  let f4 := (List.range n).filterMap fun i =>
+  let f4 := firstFail n fun i =>
     let y := Li.apply (c.pos[i]!.sub d.stdShift)
     if (findMagSite ixS S.mom y c.num[i]! (rotMom cs.mc.mom[i]!) r2 mr2).isSome then none
     else if (ixS.find y c.num[i]! r2).isNone then
       some s!"C13[std-pos]: input atom {i} is not carried onto a std_mag_cell site of its species within 4*symprec"
     else some s!"C13[std-mom]: input atom {i} lands on a std_mag_cell site whose moment differs from the rotated input moment by more than 4*mag_symprec"
   -- every std_mag_cell site is the image of an input atom carrying the same (rotated) moment
-  let f5 := (List.range S.cell.n).filterMap fun j =>
+  let f5 := firstFail S.cell.n fun j =>
     let y := (d.stdLinear.apply S.cell.pos[j]!).add d.stdShift
     if (findSel2 ixI y (fun i => c.num[i]! == S.cell.num[j]!) (fun i => momClose (rotMom cs.mc.mom[i]!) S.mom[j]! mr2) r2).isSome then none
     else if (ixI.find y S.cell.num[j]! r2).isNone then
@@ -287,12 +319,12 @@ def checkC13 (cs : MagCaseQ) (d : MagDatasetQ) : List String :=
   let f6 := if rabs ((S.cell.n : Rat) - (n : Rat) * detL) ≤ 1 / 1000 then [] else
     [s!"C13[std-count]: std_mag_cell has {S.cell.n} atoms, N*|det std_linear| = {Wire.ratToString ((n : Rat) * detL)}"]
   -- primitive cell through mapping_std_prim
-  let f7 := (List.range n).filterMap fun i =>
+  let f7 := firstFail n fun i =>
     let y := Pi.apply (c.pos[i]!.sub d.primShift)
     match d.mapping[i]? with
     | none => some s!"C13[prim-map]: mapping_std_prim has no entry for atom {i}"
     | some j =>
-      if !(j < P.cell.n && P.cell.num[j]! == c.num[i]! &&
+      if !(decide (j < P.cell.n) && P.cell.num[j]! == c.num[i]! &&
            withinPeriodic P.cell.lat ixP.gi (y.sub P.cell.pos[j]!) r2) then
         some s!"C13[prim-pos]: input atom {i} is not carried onto prim_std_mag_cell site mapping_std_prim[{i}] = {j}"
       else if !(momClose P.mom[j]! (rotMom cs.mc.mom[i]!) mr2) then
@@ -300,13 +332,13 @@ def checkC13 (cs : MagCaseQ) (d : MagDatasetQ) : List String :=
       else none
   -- exact symmetry of std_mag_cell: reported operations carried by the reported transformation
   let L := d.stdLinear
-  let f8 := (List.range d.ops.size).filterMap fun k =>
+  let f8 := firstFail d.ops.size fun k =>
     let o := d.ops[k]!
-    let (W, w) := carryOp L Li d.stdShift o.rot o.trans
-    match symFail S ixS cs.collinear cs.axial W w o.rot.det o.tr e2 e2 true with
+    let Ww := carryOp L Li d.stdShift o.rot o.trans
+    match symFail S ixS cs.collinear cs.axial Ww.1 Ww.2 o.rot.det o.tr e2 e2 true with
     | none => none
-    | some (i, posOk) =>
-      if posOk then some s!"C13[sym-rep-mom]: reported operation {k}, carried into std_mag_cell, maps site {i} onto a site whose moment is not the transformed moment (1e-8)"
+    | some i =>
+      if posLands S ixS Ww.1 Ww.2 e2 i then some s!"C13[sym-rep-mom]: reported operation {k}, carried into std_mag_cell, maps site {i} onto a site whose moment is not the transformed moment (1e-8)"
       else some s!"C13[sym-rep-pos]: reported operation {k}, carried into std_mag_cell, maps site {i} onto no site (1e-8 A)"
   -- tabulated operations
   let f9 := match magTypeOf d.uni with
@@ -315,25 +347,55 @@ def checkC13 (cs : MagCaseQ) (d : MagDatasetQ) : List String :=
       let fref := match refConvOps e.number with
         | none => [s!"C13[ref]: no tabulated operations for the reference setting of ITA number {e.number}"]
         | some conv =>
-          (List.range conv.length).filterMap fun k =>
+          firstFail conv.length fun k =>
             let o : HOp := conv[k]!
             match symFail S ixS cs.collinear cs.axial (QM3.ofM3 o.rot) (o.trans.toQ 12) o.rot.det false e2 e2 false with
             | none => none
-            | some (i, _) => some s!"C13[sym-ref]: tabulated operation {k} of the reference setting (ITA {e.number}) maps std_mag_cell site {i} onto no site (1e-8 A)"
-      let excepted := e.constructType == 4 && e.number ≤ 15
-      let ftab := if excepted then [] else
+            | some i => some s!"C13[sym-ref]: tabulated operation {k} of the reference setting (ITA {e.number}) maps std_mag_cell site {i} onto no site (1e-8 A)"
+      let ftab := if exceptedEntry e then [] else
         match magConvOpsOfUni d.uni.toNat with
         | none => [s!"C13[tab]: no tabulated magnetic operations for UNI {d.uni}"]
         | some conv =>
-          (List.range conv.length).filterMap fun k =>
+          firstFail conv.length fun k =>
             let o : HOp := conv[k]!
             match symFail S ixS cs.collinear cs.axial (QM3.ofM3 o.rot) (o.trans.toQ 12) o.rot.det o.tr e2 e2 true with
             | none => none
-            | some (i, posOk) =>
-              if posOk then some s!"C13[sym-tab-mom]: tabulated magnetic operation {k} of UNI {d.uni} maps std_mag_cell site {i} onto a site whose moment is not the transformed moment (1e-8)"
+            | some i =>
+              if posLands S ixS (QM3.ofM3 o.rot) (o.trans.toQ 12) e2 i then some s!"C13[sym-tab-mom]: tabulated magnetic operation {k} of UNI {d.uni} maps std_mag_cell site {i} onto a site whose moment is not the transformed moment (1e-8)"
               else some s!"C13[sym-tab-pos]: tabulated magnetic operation {k} of UNI {d.uni} maps std_mag_cell site {i} onto no site (1e-8 A)"
-      fref.take 1 ++ ftab.take 1
-  f1 ++ f2 ++ f3 ++ f4.take 1 ++ f5.take 1 ++ f6 ++ f7.take 1 ++ f8.take 1 ++ f9
+      fref ++ ftab
+  f1 ++ f2 ++ f3 ++ f4 ++ f5 ++ f6 ++ f7 ++ f8 ++ f9
+
+/-- Diagnostic line appended to a non-empty failure list (used only to key known findings): which
+trigger conditions of the three known defect sites are present in this dataset.
+`rot`: std_rotation_matrix differs from the identity; `centred`: std_mag_cell is a multiple cell of
+prim_std_mag_cell; `shift`: the origin shift is not a lattice vector of std_mag_cell;
+`shiftdropped`: with the origin shift replaced by zero every input atom lands on a std_mag_cell site of
+its species and every site is reached (the signature of the shift being dropped when the conventional
+magnetic cell is built). -/
+def diagC13 (cs : MagCaseQ) (d : MagDatasetQ) : String :=
+  let c := cs.mc.cell
+  let r := 4 * d.symprec
+  let r2 := r * r
+  let tol : Rat := 1 / 1000000000
+  let b (x : Bool) : String := if x then "1" else "0"
+  let rot := !(matClose d.stdRot QM3.one tol)
+  let M := d.primLinear.inv.mul d.stdLinear
+  let centred := decide (rabs M.det > 3 / 2)
+  let ls := d.stdLinear.inv.apply d.stdShift
+  let w := ls.wrap
+  let shift := !(decide (rabs w.x ≤ tol) && decide (rabs w.y ≤ tol) && decide (rabs w.z ≤ tol))
+  let ixS := SiteIndex.build d.std.cell
+  let ixI := SiteIndex.build c
+  let Li := d.stdLinear.inv
+  let dropped := shift &&
+    ((List.range c.n).all fun i => (ixS.find (Li.apply c.pos[i]!) c.num[i]! r2).isSome) &&
+    ((List.range d.std.cell.n).all fun j => (ixI.find (d.stdLinear.apply d.std.cell.pos[j]!) d.std.cell.num[j]! r2).isSome)
+  s!"C13[diag]: rot={b rot} centred={b centred} shift={b shift} shiftdropped={b dropped}"
+
+def checkC13 (cs : MagCaseQ) (d : MagDatasetQ) : List String :=
+  let core := checkC13core cs d
+  if core.isEmpty then [] else core ++ [diagC13 cs d]
 
 /-! ### all three -/
 
